@@ -1,4 +1,5 @@
 PROPERTY = 'C16'
+import itertools
 # -mrtm -mwaitpkg: the flags the real build passes (cmake/compilers/GNU.cmake); needed for _tpause in scheduler_common.h
 CXX = ['-D__TBB_BUILD', '-mrtm', '-mwaitpkg']
 # functions of arena.cpp that contain inline asm (FPU control word capture) and are not part of any encoded path
@@ -6,45 +7,108 @@ CUT_ARENA = ['arena7processERNS1_11thread_dataE', 'r17executeERNS0_2d115task_are
 # cbmc keeps heap objects field-sensitive only up to 64 bytes by default; larger objects (market, proxy) would turn every
 # vptr load into an unresolved byte_extract and every virtual call into a case split over all address-taken functions
 FS = ['--max-field-sensitivity-array-size', '4096']
+# free_arena / out_of_work: reachable from on_thread_leaving only for the last reference / an external reference; the model
+# threads never drop the last reference (the harness stubs assert that)
+CUT_SLOTS = CUT_ARENA + ['arena10free_arenaEv', 'arena11out_of_workEv']
+# virtual functions that are never called by the encoded paths but are address-taken: when a virtual call goes through a
+# symbolic object pointer cbmc explores every candidate; these heavy ones are made bodiless
+CUT_VIRT = ['14delegated_task', '10sleep_nodeImE', '9wait_nodeImE', '21numa_binding_observer', '23task_scheduler_observer']
+def thr(n): return {'vp_thr_visit': ['a', 'b', 'c'][:n]}
 UNITS = {
   'mkt': dict(wrapper='w_market.cpp', mode='seq', cxxflags=CXX, cut=CUT_ARENA, selftest=True),
+  'slots2': dict(wrapper='w_slots.cpp', mode='lcs', unroll=3, cxxflags=CXX, cut=CUT_SLOTS, threads=thr(2)),
+  'slots3': dict(wrapper='w_slots.cpp', mode='lcs', unroll=3, cxxflags=CXX, cut=CUT_SLOTS, threads=thr(3)),
+  'iso': dict(wrapper='w_iso.cpp', mode='seq', cxxflags=CXX, cut=CUT_ARENA + ['advertise_new_work'] + CUT_VIRT, selftest=True),
 }
-def thr(n): return {'vp_thr_visit': ['a', 'b', 'c'][:n]}
-# free_arena / out_of_work: reachable from on_thread_leaving only for the last reference / an external reference; the model
-# threads never drop the last reference (the harness stub of free_arena asserts that)
-CUT_SLOTS = CUT_ARENA + ['arena10free_arenaEv', 'arena11out_of_workEv']
-UNITS['slots2'] = dict(wrapper='w_slots.cpp', mode='lcs', unroll=3, cxxflags=CXX, cut=CUT_SLOTS, threads=thr(2))
-UNITS['slots3'] = dict(wrapper='w_slots.cpp', mode='lcs', unroll=3, cxxflags=CXX, cut=CUT_SLOTS, threads=thr(3))
-# virtual functions that are never called by the encoded paths but are address-taken: when a virtual call goes through a
-# symbolic object pointer (which proxy was popped) cbmc explores every candidate; these heavy ones are made bodiless
-CUT_VIRT = ['14delegated_task', '10sleep_nodeImE', '9wait_nodeImE', '21numa_binding_observer', '23task_scheduler_observer']
-UNITS['iso'] = dict(wrapper='w_iso.cpp', mode='seq', cxxflags=CXX, cut=CUT_ARENA + ['advertise_new_work'] + CUT_VIRT, selftest=True)
+
+# ---- allot scenarios: priority level of the three clients (registration order matters: update_allotment serves the last
+# registered client first) x final operation (FOP 0 = new soft limit, FOP 1 = adjust_demand on client FCL)
+def allot(p, fop, fcl=None):
+    d = {'P0': p[0], 'P1': p[1], 'P2': p[2], 'FOP': fop}
+    if fop == 1: d['FCL'] = fcl
+    return d
+TWO_LEVEL = [(0, 0, 0), (0, 0, 1), (0, 1, 0), (1, 0, 0), (0, 1, 1), (1, 0, 1), (1, 1, 0)]
+THREE_LEVEL = list(itertools.permutations((0, 1, 2)))
+ALLOT_QUICK = [allot(p, 0) for p in [(0, 0, 0), (0, 0, 1), (0, 1, 0), (1, 0, 0), (0, 1, 1)]] + \
+              [allot((0, 0, 1), 1, 0), allot((0, 1, 0), 1, 1), allot((1, 1, 0), 1, 2)]
+ALLOT_ALL = [allot(p, 0) for p in TWO_LEVEL + THREE_LEVEL] + [allot(p, 1, c) for p in TWO_LEVEL + THREE_LEVEL for c in (0, 1, 2)]
+
+# ---- slot scenarios: role per thread (1 worker, 0 external), visits per thread
+def slots(roles, visits):
+    d = {}
+    for i, (r, v) in enumerate(zip(roles, visits)): d['ROLE%d' % i] = r; d['NV%d' % i] = v
+    return d
+SL2_QUICK = [slots(r, (1, 1)) for r in [(1, 0), (1, 1), (0, 0)]]
+SL2_THOROUGH = SL2_QUICK + [slots(r, v) for r in [(1, 0), (1, 1), (0, 0)] for v in [(2, 1), (2, 2)]]
+SL3 = [slots(r, (1, 1, 1)) for r in [(1, 1, 0), (1, 0, 0), (1, 1, 1), (0, 0, 0)]]
+
+# ---- isolation scenarios: SRC 0 own pool / 1 victim pool: head position H, hole pattern PRES
+ISO_QUICK = [{'SRC': 0, 'H': 1, 'PRES': 7}, {'SRC': 0, 'H': 1, 'PRES': 5}, {'SRC': 1, 'H': 1, 'PRES': 7}, {'SRC': 1, 'H': 1, 'PRES': 6}]
+ISO_THOROUGH = [{'SRC': k, 'H': h, 'PRES': m} for k in (0, 1) for h in (0, 1, 5) for m in range(1, 8)]
+
+SER_BOUNDS = {'soft limit': '0..INT_MAX', 'total request': '0..INT_MAX', 'delta per update': 'any int keeping the total in 0..INT_MAX',
+              'mandatory requests': 'any non-negative int', 'threads': 'sequential (the aggregating path of update(); concurrent aggregation is outside)'}
 HARNESSES = [
   dict(name='serializer_hist', unit='mkt', harness='h_serializer.c', defines={'MODE': 0},
        scenarios=[{'PART': 0}, {'PART': 1, 'NOPS': 3}], scenarios_thorough=[{'PART': 0}, {'PART': 1, 'NOPS': 5}],
-       cbmc=['--unwind', '8'] + FS, timeout=600,
-       desc='limit_delta lemma (full width) and NOPS symbolic operations (update/set limit/mandatory +-1) on a fresh thread_request_serializer_proxy: threads requested == min(total demand, effective limit)',
-       bounds={'ops': '3 quick / 5 thorough, kind symbolic', 'soft limit': '0..INT_MAX', 'delta per update': 'any int keeping the total in 0..INT_MAX'}),
+       cbmc=['--unwind', '8'] + FS, timeout=1200,
+       desc='limit_delta lemma (every int) and NOPS symbolic operations (update / set_active_num_workers / mandatory request +-1, kind symbolic) on a freshly constructed thread_request_serializer_proxy: threads requested from the dispatcher == min(total demand, effective soft limit); mandatory-concurrency flag == (limit 0 and enqueued work)',
+       bounds=dict(SER_BOUNDS, ops='3 quick / 5 thorough')),
   dict(name='serializer_step', unit='mkt', harness='h_serializer.c', defines={'MODE': 1},
-       scenarios=[{'OP': o} for o in range(4)], cbmc=['--unwind', '8'] + FS, timeout=600,
-       desc='one operation from an arbitrary proxy state satisfying the invariant (total, limit, mandatory count: any non-negative int): invariant preserved, threads requested == min(total demand, effective limit)',
-       bounds={'state': 'T, L, M in 0..INT_MAX', 'delta per update': 'any int keeping the total in 0..INT_MAX'}),
+       scenarios=[{'OP': o} for o in range(4)], cbmc=['--unwind', '8'] + FS, timeout=1200,
+       desc='one operation (OP 0 update, 1 set limit, 2/3 mandatory +-1) from an ARBITRARY proxy state satisfying the invariant (established by the constructor, preserved by every operation): same oracle, full int range',
+       bounds=SER_BOUNDS),
   dict(name='allot_step', unit='mkt', harness='h_allot.c', defines={'NC': 3, 'VMAX': 7, 'LMAX': 1 << 20, 'MODE': 1},
-       scenarios=[{'P0': 0, 'P1': 0, 'P2': 1, 'FOP': 0}, {'P0': 0, 'P1': 1, 'P2': 0, 'FOP': 1, 'FCL': 1}], cbmc=['--unwind', '10'] + FS, timeout=900,
-       desc='market::update_allotment through threading_control_impl::adjust_demand/set_active_num_workers', bounds={}),
-]
-HARNESSES += [
+       scenarios=ALLOT_QUICK, scenarios_thorough=ALLOT_ALL, cbmc=['--unwind', '10'] + FS, timeout=1800,
+       desc='one real operation (threading_control_impl::set_active_num_workers or adjust_demand -> serializer proxy + market::adjust_demand -> arena::update_request -> market::update_allotment) from an arbitrary reachable market state of 3 arenas: sum of allotments == min(total demand, soft limit) (+ the single mandatory worker at limit 0), each <= its demand, higher priority saturated first, proportional split inside a level, top-priority flag, clamping of the arena request, threads requested from RML == workers granted',
+       bounds={'arenas': 3, 'priority levels': '<= 2 quick, <= 3 thorough (concrete per query)', 'max workers per arena': '0..7 (symbolic)', 'soft limit': '0..2^20 (symbolic)',
+               'pre-state': 'any per-arena request in -2..8 / mandatory flag, stale allotments arbitrary', 'queries': 'priority pattern x final operation'}),
+  dict(name='allot_step15', unit='mkt', harness='h_allot.c', defines={'NC': 3, 'VMAX': 15, 'LMAX': 1 << 20, 'MODE': 1}, tiers=['thorough'],
+       scenarios=[allot((0, 0, 0), 0), allot((0, 0, 1), 0), allot((0, 1, 1), 1, 1)], cbmc=['--unwind', '10'] + FS, timeout=3600,
+       desc='allot_step with demands up to 15 per arena', bounds={'arenas': 3, 'max workers per arena': '0..15', 'soft limit': '0..2^20'}),
+  dict(name='allot_hist', unit='mkt', harness='h_allot.c', defines={'NC': 3, 'VMAX': 7, 'LMAX': 1 << 20, 'MODE': 0}, tiers=['thorough'],
+       scenarios=[allot((0, 0, 1), 0), allot((0, 1, 0), 1, 1), allot((0, 1, 2), 0)], cbmc=['--unwind', '10'] + FS, timeout=3600,
+       desc='same oracle after every step of a history from the freshly constructed market: one adjust_demand per arena, then the final operation (4 real update_allotment runs; shows the pre-states of allot_step are reachable and consistent)',
+       bounds={'arenas': 3, 'history': '3 adjust_demand + 1 final operation', 'max workers per arena': '0..7'}),
   dict(name='isolation', unit='iso', harness='h_iso.c', defines={'N': 3},
-       scenarios=[{'SRC': k, 'H': 1, 'PRES': m} for k in (0, 1) for m in (7, 5, 6, 3)] + [{'SRC': 2}] + [{'SRC': 3, 'PH': ph, 'GH': gh} for ph in (0, 1) for gh in (0, 1)],
-       cbmc=['--unwind', '12', '--object-bits', '10'] + FS, timeout=300,
-       desc='isolation filtering', bounds={}),
+       scenarios=ISO_QUICK, scenarios_thorough=ISO_THOROUGH, cbmc=['--unwind', '12', '--object-bits', '10'], timeout=1500,
+       desc='arena_slot::get_task (own pool) / steal_task (victim pool) on a pool of 3 entries with symbolic 64-bit isolation tags and a symbolic waiter tag: the returned task carries the waiter tag (or the waiter is not isolated), it is the newest (owner) / oldest (thief) eligible one, every skipped task stays in the pool in order, skipped work is re-advertised',
+       bounds={'pool entries': 3, 'tags / waiter tag': 'any 64-bit word (symbolic)', 'head position, hole pattern': 'concrete per query', 'proxies in the pool': 'none', 'threads': 'sequential'}),
   dict(name='slots_2t', unit='slots2', harness='h_slots.c', defines={'NT': 2, 'NSLOTS': 3, 'NRES': 1, 'ROUNDS': 2},
-       scenarios=[{'ROLE0': 1, 'ROLE1': 0, 'NV0': 1, 'NV1': 1}], cbmc=['--unwind', '8', '--object-bits', '12'], timeout=600,
-       desc='2 threads entering/leaving one arena', bounds={}),
+       scenarios=SL2_QUICK, scenarios_thorough=SL2_THOROUGH, cbmc=['--unwind', '8', '--object-bits', '12'], timeout=2400,
+       desc='2 threads (worker: try_join + occupy_free_slot<true> + on_thread_leaving; external: occupy_free_slot<false>) entering and leaving a 3-slot arena with 1 reserved slot under every interleaving: slot indices distinct and < num_slots, workers never in the reserved slot, my_limit covers every occupied slot, truthful failure, reference word restored',
+       bounds={'threads': 2, 'slots': 3, 'reserved': 1, 'free_rounds': 2, 'forced_rounds': 2, 'loop unroll': 3, 'visits per thread': '1 quick, <= 2 thorough',
+               'symbolic': 'schedule, slot hints, RNG state, allotment, foreign-occupied slots'}),
   dict(name='slots_3t', unit='slots3', harness='h_slots.c', defines={'NT': 3, 'NSLOTS': 3, 'NRES': 1, 'ROUNDS': 1},
-       scenarios=[{'ROLE0': 1, 'ROLE1': 1, 'ROLE2': 0, 'NV0': 1, 'NV1': 1, 'NV2': 1}], cbmc=['--unwind', '8', '--object-bits', '12'], timeout=1800,
-       desc='3 threads entering/leaving one arena', bounds={}),
+       scenarios=SL3[:1], scenarios_thorough=SL3, cbmc=['--unwind', '8', '--object-bits', '12'], timeout=2400,
+       thorough_override={'defines': {'NT': 3, 'NSLOTS': 3, 'NRES': 1, 'ROUNDS': 2}, 'timeout': 3600},
+       desc='3 threads entering and leaving a 3-slot arena (1 reserved): same oracle as slots_2t',
+       bounds={'threads': 3, 'slots': 3, 'reserved': 1, 'free_rounds': '1 quick / 2 thorough', 'forced_rounds': 2, 'loop unroll': 3}),
+  dict(name='slots_2res', unit='slots2', harness='h_slots.c', defines={'NT': 2, 'NSLOTS': 3, 'NRES': 2, 'ROUNDS': 2}, tiers=['thorough'],
+       scenarios=SL2_QUICK + [slots((1, 0), (2, 2))], cbmc=['--unwind', '8', '--object-bits', '12'], timeout=3600,
+       desc='2 threads, 3-slot arena with 2 reserved slots (one worker slot)', bounds={'threads': 2, 'slots': 3, 'reserved': 2, 'free_rounds': 2, 'forced_rounds': 2}),
 ]
-OUTSIDE = []
-STUBS = []
-ASSUMPTIONS = []
+OUTSIDE = [
+  'isolation filtering of the affinity mailbox (mail_outbox::internal_pop / get_mailbox_task) and of the critical task stream (task_stream::pop_specific): harness code exists (h_iso.c SRC 2/3) but the queries did not come under control (atomic pointers pass through integer casts in the IR; no verdict in 250 s even for 1-2 entries)',
+  'the dispatch loop itself (local_wait_for_all / receive_or_steal_task): that a waiter passes its own isolation tag to these functions is read from the source, not checked',
+  'global_control (std::set of controls lives in libstdc++), observer entry/exit pairing, the end-to-end "at most L-1 workers execute user work" statement (needs RML + dispatcher)',
+  'concurrent aggregation in thread_request_serializer::update (several threads adding to the packed pending counter at once): sequential path only; the packed 32-bit delta field holds any single int, sums of simultaneously pending deltas must stay inside it',
+  'market with more than 3 arenas or demands above 15; tcm_adaptor (TCM permit manager)',
+  'more than 3 threads / 3 slots in the slot harness; non-TSO weak memory',
+]
+STUBS = [
+  'thread_dispatcher::adjust_job_count_estimate(delta): ghost counter J (what RML is asked for)',
+  'r1::cache_aligned_allocate / allocate_memory: fresh storage, never NULL',
+  'notify_by_address_one/all (mutex wake-ups): no-op (sequential) ',
+  'tcm_adaptor::is_initialized: false (market is the permit manager)',
+  'threading_control::prepare_client_destruction / try_destroy_client (slots): never asked to destroy (asserted)',
+  'arena::advertise_new_work<wakeup> (isolation): cut, calls counted',
+  'arena::process, task_arena_impl::execute (FPU inline asm, dispatch loop): cut; the thread bodies of w_slots.cpp replay their call sequence around the slot window',
+]
+ASSUMPTIONS = [
+  'arena objects of the market harness are zeroed storage carrying the scalar fields the constructor stores (no slots / dispatchers); the slot harness uses the real storage layout with scalar fields set white-box (the real allocate_arena is too heavy for the thread encoding)',
+  'per arena the mandatory request count is 0/1 (arena::my_mandatory_concurrency flag) and the accumulated worker request stays within -2..max_workers+1',
+  'one-step market harness: proxy state characterised by the invariant proven inductive in serializer_step; stale allotments arbitrary',
+  'task_stream / slot hints are below the number of lanes (init_task_streams(slot index) and masking lane selectors)',
+  'try/catch/throw in task_dispatcher.h neutralised by macros (units are built with -fno-exceptions; no encoded function contains a try block)',
+]
